@@ -166,10 +166,11 @@ def h_complete(c, pkg, kind, mask, flag, allowed, slen=2):
             wit = T.make_graftroot_witness_keyspend(seed, sf, fl)
         elif kind == 'graftroot_surrogate':
             lock = T.make_graftroot_lock(pub, al)
-            script = T.Script.from_src('true') if slen == 0 else T.Script('', c.bytes('script', slen))
+            script = T.Script.from_src('true') if slen == 0 else T.Script('', c.bytes('script', slen) if slen < 256 else b'\x01' * slen)
             wit = T.make_graftroot_witness_surrogate(seed, script)
         elif kind == 'scripthash':
-            script = T.Script('', c.bytes('script', slen))
+            # (long scripts: concrete content - the evaluation is summarised, only the length matters)
+            script = T.Script('', c.bytes('script', slen) if slen < 256 else b'\x01' * slen)
             lock = T.make_scripthash_lock(script)
             wit = T.make_scripthash_witness(script)
         else:
@@ -249,6 +250,15 @@ def _real_complete(inputs, params):
     sf = {k: v for k, v in inputs.items() if k.startswith('sigfield')}
     fl, al = '%02x' % flag, '%02x' % allowed
     script = None
+
+    def true_script():
+        """a script that leaves true; of exactly params['slen'] bytes when the job is about a long script"""
+        n = params.get('slen', 1)
+        if n < 256:
+            return RT.Script.from_src('true')
+        code = b'\x01' + (b'\x02\x00\x06' if (n - 1) % 2 else b'')
+        code += b'\x01\x06' * ((n - len(code)) // 2)
+        return RT.Script('', code)
     if kind == 'single':
         lock, wit = RT.make_single_sig_lock(pub, al), RT.make_single_sig_witness(seed, sf, fl)
     elif kind == 'single2':
@@ -256,10 +266,10 @@ def _real_complete(inputs, params):
     elif kind == 'graftroot_key':
         lock, wit = RT.make_graftroot_lock(pub, al), RT.make_graftroot_witness_keyspend(seed, sf, fl)
     elif kind == 'graftroot_surrogate':
-        script = RT.Script.from_src('true')
+        script = true_script()
         lock, wit = RT.make_graftroot_lock(pub, al), RT.make_graftroot_witness_surrogate(seed, script)
     else:
-        script = RT.Script.from_src('true')
+        script = true_script()
         lock, wit = RT.make_scripthash_lock(script), RT.make_scripthash_witness(script)
     return tapescript.run_auth_scripts([wit, lock], sf), lock, wit
 
@@ -548,7 +558,8 @@ def _p_complete(tier):
             for f, a in _flags(tier):
                 out.append({'kind': kind, 'mask': m, 'flag': f, 'allowed': a})
     for kind in ('graftroot_surrogate', 'scripthash'):
-        for sl in ((1, 3) if tier == 'quick' else (1, 2, 3, 6)):
+        # 1024 = the default max item size: the longest script that fits on the stack must still be evaluated
+        for sl in ((1, 3, 1024) if tier == 'quick' else (1, 2, 3, 6, 255, 256, 1023, 1024)):
             out.append({'kind': kind, 'mask': 0b001, 'flag': 0, 'allowed': 0, 'slen': sl})
     return out
 
